@@ -39,9 +39,13 @@ def run_raire(case):
     from shangrla.raire.raire_utils import Contest as RContest
 
     cvrs = si.raire_cvrs(case)
-    contest = RContest("c", list(case["cands"]), case["winner"], len(case["ballots"]), order=case["order_hint"] or [])
+    contest = RContest("c", list(case["cands"]), case["winner"], total_ballots(case), order=case["order_hint"] or [])
     f = getattr(sample_estimator, case["asn"])
     return compute_raire_assertions(contest, cvrs, case["winner"], f, False), f
+
+
+def total_ballots(case):
+    return len(case["ballots"]) + case.get("tot_extra", 0)
 
 
 def as_tuple(a):
@@ -63,7 +67,7 @@ def evaluate(case, out):
     except Exception as e:  # noqa
         out.lib_exception("compute_raire_assertions", e)
         return
-    true = ir.all_true_assertions(cands, real, difficulty=None, total=len(case["ballots"]))
+    true = ir.all_true_assertions(cands, real, difficulty=None, total=total_ballots(case))
     orders = ir.alternative_orders(cands, winner)
     out.enumerated = len(orders)
     possible = all(any(ir.contradicts(a, o) for a in true) for o in orders)
